@@ -93,6 +93,11 @@ class LocalTerminalConnection(TerminalClientConnection):
         if not self.is_active:
             self.parent_terminal.sys_log.warning("Connection inactive, cannot execute")
             return None
+        local_session = self.parent_terminal.parent.user_session_manager.local_session
+        if local_session is None or local_session.uuid != self.connection_uuid:
+            # the local session this connection was opened on has ended (logout, time-out, password change, other user)
+            self.parent_terminal.sys_log.warning("Local session has ended, cannot execute")
+            return None
         return self.parent_terminal.execute(command)
 
 
